@@ -2,6 +2,8 @@
 frame, evaluate_new_data returns exactly the rows `is` of the training matrix."""
 import warnings
 
+import pandas as pd
+
 import designs
 from common import Result, ask, rng_for, known_findings
 
@@ -16,6 +18,21 @@ ASSUMPTIONS = [
     "frame) and a failure is a known finding only if the implementation's output also equals the "
     "model's (which mirrors both defects)",
 ]
+ASSUMPTIONS += [
+    "splines with interior knots taken from the calling namespace: bs(v, knots=kn_v) with degree 1-3, "
+    "with / without intercept=True, with both, one or none of lower_bound / upper_bound (names from "
+    "the namespace too), alone, in interactions and as group-specific slopes; the knots are strictly "
+    "inside the training range of v, so the boundary knots are the training minimum / maximum when "
+    "no bound is written; every design is also evaluated on the rows that are extreme in neither x "
+    "nor z (a frame whose own range is narrower than the training range)",
+    "history stage: ONE frame object holding training rows is evaluated by the common and the group "
+    "matrix, edited IN PLACE so that it holds other training rows (every column assigned anew; "
+    ".loc edits of some rows; rows dropped in place; sorted in place), and evaluated again by the same "
+    "matrix objects with no other frame in between; the second result is judged by the same predicate "
+    "(Spec.C06.holds: the training rows of the frame's contents at the time of the call); a failure "
+    "that the evaluation of a fresh frame with the same contents shows in exactly the same way is the "
+    "one already reported there (known classes D13 / D14) and is only counted",
+]
 TRUSTED = ["numpy/scipy floating point for scale, bs, poly (parameters are frozen: checked through "
            "the row identity itself)"]
 
@@ -27,6 +44,123 @@ DEFECT_ATOMS = ["binary(k)", "binary(k, 2)", "B(h, 'q')", "C(f, levels=lv_f)", "
 CORPUS = ["y ~ C(f, levels=lv_f)", "y ~ C(co) + x", "y ~ binary(k)", "y ~ binary(k, 2) + f",
           "y ~ scale(x) + (scale(x) | g)", "y ~ poly(x, 3) + bs(z, df=5)", "y ~ co + cu + (x | co)",
           "y ~ 0 + (h + z)*x", "y ~ (f | g + h) - (1 | h)", "y ~ center(x):f + (center(x) | g)"]
+
+
+KNOT_ATOMS = ["bs(x, knots=kn_x)", "bs(z, knots=kn_z)", "bs(x, knots=kn_x, degree=2)",
+              "bs(z, knots=kn_z, degree=1)", "bs(z, knots=kn_z, intercept=True)",
+              "bs(x, knots=kn_x, lower_bound=lo_x, upper_bound=hi_x)",
+              "bs(z, knots=kn_z, degree=2, lower_bound=lo_z, upper_bound=hi_z)",
+              "bs(x, knots=kn_x, lower_bound=lo_x)", "bs(z, knots=kn_z, degree=2, upper_bound=hi_z)",
+              "bs(x, knots=kn_x):f", "h:bs(z, knots=kn_z, degree=2)", "bs(x, knots=kn_x, degree=1):z",
+              "bs(center(x), knots=kn_cx)", "(0 + bs(x, knots=kn_x) | g)",
+              "(bs(z, knots=kn_z, degree=2) | h)", "(bs(x, knots=kn_x, upper_bound=hi_x) | cu)"]
+
+
+def knot_names(r2, df):
+    """interior knots and bounds for the numeric columns of THIS frame: 1-3 knots strictly inside the
+    training range (data values or midpoints between them), bounds at or beyond the training
+    minimum / maximum"""
+    out = {}
+    for v, col in (("x", df["x"]), ("z", df["z"]), ("cx", df["x"] - df["x"].mean())):
+        vals = sorted(set(float(a) for a in col))
+        inner = vals[1:-1] + [(a + b) / 2 for a, b in zip(vals, vals[1:])]
+        inner = sorted(set(a for a in inner if vals[0] < a < vals[-1]))
+        k = min(len(inner), r2.randrange(1, 4))
+        # towards the middle of the range: most sub-frames still enclose them
+        mid = inner[len(inner) // 4: max(len(inner) // 4 + k, 3 * len(inner) // 4)] or inner
+        out["kn_" + v] = sorted(r2.sample(mid, min(k, len(mid)))) if mid else [(vals[0] + vals[-1]) / 2]
+        out["lo_" + v] = vals[0] - r2.choice([0, 0.5, 2])
+        out["hi_" + v] = vals[-1] + r2.choice([0, 0.25, 3])
+    return out
+
+
+def interior_rows(df):
+    """rows that carry neither the minimum nor the maximum of x or z (fallback: of x alone)"""
+    ext = {c: (df[c].min(), df[c].max()) for c in ("x", "z")}
+    rows = [i for i in range(len(df))
+            if all(df[c].iloc[i] not in ext[c] for c in ("x", "z"))]
+    if not rows:
+        rows = [i for i in range(len(df)) if df["x"].iloc[i] not in ext["x"]]
+    return rows or [0]
+
+
+EDITS = ["assign", "assign", "loc", "loc", "drop", "sort"]
+
+
+def plan_history(rh, df, idx_a):
+    """-> (edit kind, parameters, idx_b): an in-place edit of a frame that holds rows idx_a of df,
+    after which it holds rows idx_b of df"""
+    n, m = len(df), len(idx_a)
+    kind = rh.choice(EDITS)
+    if kind == "drop" and m < 2:
+        kind = "assign"
+    if kind == "assign":                  # every column assigned anew
+        idx_b = [rh.randrange(n) for _ in range(m)]
+        if idx_b == idx_a:
+            idx_b[0] = (idx_b[0] + 1) % n
+        return kind, None, idx_b
+    if kind == "loc":                     # some rows overwritten through .loc, column by column
+        pos = sorted(rh.sample(range(m), rh.randrange(1, m + 1)))
+        idx_b = list(idx_a)
+        for p in pos:
+            idx_b[p] = (idx_a[p] + rh.randrange(1, n)) % n
+        return kind, pos, idx_b
+    if kind == "drop":                    # rows dropped in place
+        pos = sorted(rh.sample(range(m), rh.randrange(1, m)))
+        return kind, pos, [i for p, i in enumerate(idx_a) if p not in pos]
+    col, asc = rh.choice(["x", "z", "y"]), rh.random() < 0.5      # sorted in place
+    order = list(df[col].iloc[idx_a].reset_index(drop=True).sort_values(kind="stable", ascending=asc).index)
+    return kind, (col, asc), [idx_a[p] for p in order]
+
+
+def apply_history_edit(new, df, kind, par, idx_b):
+    """modifies the frame object `new` itself"""
+    if kind == "assign":
+        for c in df.columns:
+            new[c] = df[c].iloc[idx_b].values
+    elif kind == "loc":
+        labels = [new.index[p] for p in par]
+        for c in df.columns:
+            new.loc[labels, c] = df[c].iloc[[idx_b[p] for p in par]].values
+    elif kind == "drop":
+        new.drop(index=[new.index[p] for p in par], inplace=True)
+    else:
+        new.sort_values(par[0], kind="stable", ascending=par[1], inplace=True)
+    return new
+
+
+def run_history(dm, df, idx_a, kind, par, idx_b):
+    """-> {part: {"first": .., "second": ..}} or None when the edit did not produce rows idx_b"""
+    import formulae
+    new = df.iloc[idx_a].copy()
+    new.index = range(500, 500 + len(new))          # unique labels: .loc edits address single rows
+    out = {}
+    old = formulae.config["EVAL_UNSEEN_CATEGORIES"]
+    formulae.config["EVAL_UNSEEN_CATEGORIES"] = "error"
+
+    def ev(obj):
+        try:
+            with warnings.catch_warnings():
+                warnings.simplefilter("ignore")
+                return {"matrix": designs.mat(obj.evaluate_new_data(new).design_matrix)}
+        except Exception as e:  # noqa
+            return {"err": type(e).__name__}
+    try:
+        parts = [p for p in ("common", "group") if getattr(dm, p) is not None]
+        for p in parts:
+            out[p] = {"first": ev(getattr(dm, p))}
+        apply_history_edit(new, df, kind, par, idx_b)
+        try:
+            pd.testing.assert_frame_equal(new.reset_index(drop=True),
+                                          df.iloc[idx_b].reset_index(drop=True), check_dtype=False,
+                                          check_categorical=False)
+        except AssertionError:
+            return None
+        for p in parts:
+            out[p]["second"] = ev(getattr(dm, p))
+    finally:
+        formulae.config["EVAL_UNSEEN_CATEGORIES"] = old
+    return out
 
 
 def selections(r, n):
@@ -80,9 +214,12 @@ def consistent_with(cls, c, obs):
 
 def explore(tier, seed, res=None, replay=None):
     res = res or Result()
-    res.rule = ("generated designs (nested / interacting stateful transforms, C/T/S codings, ordered "
-                "categoricals, group-specific terms) x 6 row selections (single row, subset, "
-                "permutation, repetition, first half, triple); non-trivial = a selection that is not "
+    res.rule = ("generated designs (nested / interacting stateful transforms, splines with knots and "
+                "bounds from the namespace, C/T/S codings, ordered categoricals, group-specific terms) "
+                "x 8 row selections (single row, subset, permutation, repetition, first half, triple, "
+                "the rows extreme in neither x nor z, the contents of an edited frame) + one history "
+                "per design (a frame object evaluated, edited in place to other training rows, "
+                "evaluated again on the same matrix objects); non-trivial = a selection that is not "
                 "the identity on a design with a categorical or stateful atom; distinct by (formula, "
                 "selection)")
     n_cases = 300 if tier == "quick" else 10000
@@ -103,11 +240,30 @@ def explore(tier, seed, res=None, replay=None):
         res.evaluations += 1
         sels = selections(r, len(df))
         news = [{"df": designs.scramble_index(r, df.iloc[idx]), "mode": "error"} for idx in sels]
-        obs, req = designs.observe(formula, df, designs.NAMES, news)
+        # additions draw from their own generators (the cases above stay what they were; drawn
+        # unconditionally so that a replay, which is given the formula, sees the same frames)
+        r2 = rng_for(seed, "c06", path, "knots")
+        names = dict(designs.NAMES, **knot_names(r2, df))
+        u1, a1, u2, a2 = r2.random(), r2.choice(KNOT_ATOMS), r2.random(), r2.choice(KNOT_ATOMS)
+        if f is None and u1 < 0.3:
+            formula += " + " + a1 + (" + " + a2 if u2 < 0.25 and a2 != a1 else "")
+        if "knots=" in formula:
+            res.count("designs with bs(v, knots=<namespace>)"
+                      + (" and a written bound" if "_bound" in formula else ""))
+        rh = rng_for(seed, "c06", path, "history")
+        idx_a = list(sels[rh.choice([1, 3, 3, 5])])
+        kind, par, idx_b = plan_history(rh, df, idx_a)
+        sels = sels + [interior_rows(df), idx_b]
+        news += [{"df": designs.scramble_index(r2, df.iloc[idx]), "mode": "error"} for idx in sels[-2:]]
+        obs, req = designs.observe(formula, df, names, news)
         case = {"formula": formula, "seed_path": path}
         if req is None:
             res.count("impl_error:" + obs["err"])
             continue
+        req["names"] = designs.names_json(designs.NAMES)     # (knots / bounds: bs is not in the exact model)
+        if any(k in formula for k in ("kn_", "lo_", "hi_")):
+            case["names"] = {k: v for k, v in names.items() if k[:3] in ("kn_", "lo_", "hi_")
+                             and k in formula}
         checks = []
         for idx, nobs in zip(sels, obs["new"]):
             for part in ("common", "group"):
@@ -116,6 +272,20 @@ def explore(tier, seed, res=None, replay=None):
                 new = nobs.get(part) or {}
                 checks.append({"part": part, "idx": idx, "train": obs[part]["matrix"],
                                "new": new.get("matrix"), "err": new.get("err")})
+        # history: one frame object, evaluated / edited in place / evaluated again
+        hist = run_history(obs["_dm"], df, idx_a, kind, par, idx_b)
+        if hist is None:
+            res.count("history_skipped:the edit did not produce the planned rows")
+        else:
+            res.count("histories:" + kind)
+            for part, h in hist.items():
+                fresh = (obs["new"][-1].get(part) or {})
+                for when, idx in (("first", idx_a), ("second", idx_b)):
+                    checks.append({"part": part, "idx": idx, "train": obs[part]["matrix"],
+                                   "new": h[when].get("matrix"), "err": h[when].get("err"),
+                                   "history": {"frame_holds_rows": idx_a, "edit": kind,
+                                               "then_holds_rows": idx_b, "call": when},
+                                   "fresh": fresh if when == "second" else None})
         reqs_spec.append({"op": "c06_spec", "formula": formula, "frame": req["frame"],
                           "names": req["names"],
                           "checks": [{k: c[k] for k in ("idx", "train", "new")} for c in checks]})
@@ -128,7 +298,7 @@ def explore(tier, seed, res=None, replay=None):
         res.nontrivial.update((formula, tuple(idx)) for idx in sels[:4])
         if len(res.samples) < 5:
             res.samples.append({"formula": formula, "selection": sels[1]})
-    spec = ask(reqs_spec)
+    spec = ask(reqs_spec, chunk=1000)      # (bounded request size: every check carries its training matrix)
     model = ask(reqs_model)
     for (case, obs, _), po in zip(owners, ask(reqs_pipe)):
         if "err" in po:
@@ -153,6 +323,29 @@ def explore(tier, seed, res=None, replay=None):
         for c, v in zip(checks, sp["checks"]):
             res.count("row_identities_checked")
             if v["holds"]:
+                continue
+            if c.get("history"):
+                # judged by the same relation; the same failure on a fresh frame with the same
+                # contents (recorded classes) has been reported by the selection stage already
+                fresh = c.get("fresh")
+                if c["history"]["call"] == "first":
+                    fresh = next((k for k in checks if not k.get("history") and k["part"] == c["part"]
+                                  and k["idx"] == c["idx"]), None)
+                    fresh = fresh and {"matrix": fresh["new"], "err": fresh["err"]}
+                if fresh and ((c["err"] and c["err"] == fresh.get("err")) or (
+                        not c["err"] and fresh.get("matrix") is not None
+                        and designs.same(c["new"], fresh["matrix"], True))):
+                    res.count("history_failure_same_as_on_a_fresh_frame (reported there)")
+                    continue
+                res.failures.append({
+                    "case": dict(case, part=c["part"], history=c["history"]),
+                    "impl": {"error": c["err"]} if c["err"] else {"rows": "differ"},
+                    "expected": "the training rows of the frame's contents at the time of the call",
+                    "classes": v["classes"], "finding": None,
+                    "why": f"{c['part']}.evaluate_new_data, {c['history']['call']} call on a frame "
+                           f"object edited in place ({c['history']['edit']}): "
+                           + (f"raised {c['err']}" if c["err"] else "differs from the training rows "
+                              f"{c['idx'][:8]} it holds")})
                 continue
             fid = None
             for cls in v["classes"]:
